@@ -234,6 +234,8 @@ pub fn judge_string(ctx: &mut Ctx, child: &mut Option<ParseChild>, s: &str, orig
             },
         }
     } else {
+        // "always terminates": a string of this length is parsed in microseconds; 30 s of CPU time is the budget
+        let _in_flight = if s.len() <= 100_000 { Some(crate::monitor::in_flight("PartialDSym::from_str", 30, || input().to_string())) } else { None };
         parse_observed(s)
     };
     ctx.count(&format!("outcome.{}", o.class()));
